@@ -87,6 +87,8 @@ def scan_trusted(text):
     hits = []
     lines = text.split('\n')
     for i, l in enumerate(lines):
+        if 'external_body' in l and '/*R-SPLIT*/' in l:
+            continue    # composed from verified verbatim copies (R-SPLIT), not an assumption
         if 'external_body' in l or 'external_fn_specification' in l or 'external_type_specification' in l:
             # name = next fn/struct on this or following lines
             for j in range(i, min(i + 6, len(lines))):
